@@ -569,8 +569,30 @@ func (c *Ctx) checkDefaultStores(rule string) {
 							return false
 						}
 						fa, isField := ld.X.(*ssa.FieldAddr)
-						return isField && fieldName(fa.X.Type(), fa.Field) == "Disabled" && isNamedPtr(fa.X.Type(), "PropertySchema") &&
-							!strings.HasPrefix(c.M.CondPath(fn, cond, fa.X), "%foreign")
+						if !isField || fieldName(fa.X.Type(), fa.Field) != "Disabled" || !isNamedPtr(fa.X.Type(), "PropertySchema") ||
+							strings.HasPrefix(c.M.CondPath(fn, cond, fa.X), "%foreign") {
+							return false
+						}
+						// ... and the property that was tested is the one the key names (round 17, C17-CA)
+						switch {
+						case cond.Entry:
+							// tested by the callers: about the key only where the callers choose the key too
+							_, keyIsParam := mu.Key.(*ssa.Parameter)
+							return keyIsParam
+						case cond.Via != nil:
+							prm, isParam := fa.X.(*ssa.Parameter)
+							callee := cond.Via.Call.StaticCallee()
+							if !isParam || callee == nil {
+								return true // deeper than one helper: not resolved, accepted as before
+							}
+							for i, cp := range callee.Params {
+								if cp == prm && i < len(cond.Via.Call.Args) {
+									return c.propertyOfKey(cond.Via.Call.Args[i], mu.Key, 0)
+								}
+							}
+							return true
+						}
+						return c.propertyOfKey(fa.X, mu.Key, 0)
 					})
 					if enabled[b] {
 						c.R.Ok(rule, k2, c.M.InstrPos(mu), "default applied to a property in use", "reached only with the property's Disabled flag known to be false (tested here, or implied by the outcome of the helper that works the value out)")
@@ -586,6 +608,49 @@ func (c *Ctx) checkDefaultStores(rule string) {
 			}
 		}
 	}
+}
+
+// propertyOfKey (round 17, C17-CA): the property p whose Disabled flag was tested is the one the stored key names -
+// the value of a range over a table whose key is the stored key, or a lookup under that key. A test of some other
+// property's flag (the parent property the function was called for) says nothing about the key that is filled in.
+func (c *Ctx) propertyOfKey(p, k ssa.Value, depth int) bool {
+	if depth > 4 {
+		return false
+	}
+	sameKey := func(idx ssa.Value) bool {
+		return idx == k || (c.M.ValPath(idx) != "" && c.M.ValPath(idx) == c.M.ValPath(k))
+	}
+	switch x := p.(type) {
+	case *ssa.Lookup:
+		return sameKey(x.Index)
+	case *ssa.Extract:
+		switch t := x.Tuple.(type) {
+		case *ssa.Lookup:
+			return sameKey(t.Index)
+		case *ssa.Next:
+			if x.Index != 2 || t.Referrers() == nil {
+				return false
+			}
+			for _, ref := range *t.Referrers() {
+				if e, ok := ref.(*ssa.Extract); ok && e.Index == 1 && sameKey(e) {
+					return true
+				}
+			}
+		}
+	case *ssa.Phi:
+		if len(x.Edges) == 0 {
+			return false
+		}
+		for _, e := range x.Edges {
+			if !c.propertyOfKey(e, k, depth+1) {
+				return false
+			}
+		}
+		return true
+	case *ssa.ChangeType:
+		return c.propertyOfKey(x.X, k, depth+1)
+	}
+	return false
 }
 
 func (c *Ctx) fromDefaults(v ssa.Value, depth int) bool {
